@@ -229,6 +229,18 @@ def gen_scenario(rng, tier, knobs):
             round(rng.uniform(0.0, 3.0), 2), 'partition',
             rng.choice(['client', 'pilot.0000']),
             rng.choice([0.5, 2.0, 5.0])]], key=lambda o: o[0])
+    # cancel requests issued by the application a moment before the process
+    # of the named task ends by itself (triggered by its spawn): they reach
+    # the executor around the instant of the exit.  Drawn last.
+    if rng.random() < knobs.get('exit_race', 0.0):
+        for i in rng.sample(range(len(tasks)), min(len(tasks),
+                                                   rng.randint(1, 3))):
+            t = tasks[i]
+            if t.get('spawn_error') or t['descr'].get('timeout'):
+                continue
+            t['runtime'] = rng.choice([0.3, 0.5, 1.0])
+            sc['ops'].append([rng.choice([0.0, 0.005, 0.02, 0.05, 0.1]),
+                              'cancel_on', [i], i, 'pre_exit'])
     return sc
 
 
@@ -475,6 +487,41 @@ def run(seed, sc, trace=None, tier='quick'):
                             'numa_domain_map': None}
                     nl['obj'] = rp.Pilot.nodelist.fget(_P())
                 return preplace(nl['obj'], d)
+
+            # event triggered cancels ------------------------------------------
+            def canceller(op):
+                lead, _, idxs, i, trig = op
+                uid = 'task.%06d' % i
+                hit = {'seen': False}
+
+                def hook(ev):
+                    if not hit['seen'] and ev['kind'] == 'proc_spawn' and \
+                            ev.get('tag') == uid:
+                        hit['seen'] = True
+                sim.listeners.append(hook)
+
+                def body():
+                    sim.block(lambda: hit['seen'], 60.0, what='cancel_on')
+                    if not hit['seen']:
+                        return
+                    sim.sleep(max(0.0, sc['tasks'][i]['runtime'] - lead))
+                    uids = ['task.%06d' % k for k in idxs
+                            if 'task.%06d' % k in st['uids']]
+                    if not uids:
+                        return
+                    sim.fault('cancel')
+                    sim.fault('cancel_on:%s' % trig)
+                    for u in uids:
+                        st['cancel'].add(u)
+                        st['cancel_at'].setdefault(u, len(sim.events))
+                        st['cancel_t'].setdefault(u, sim.now)
+                    tmgr.cancel_tasks(uids)
+                with C.group('app'):
+                    P.Thread(target=body, name='app.cancel.%d' % i).start()
+
+            for op in sc['ops']:
+                if op[1] == 'cancel_on':
+                    canceller(op)
 
             # timeline -----------------------------------------------------------
             tl = list()
@@ -984,6 +1031,10 @@ def shrink(sc):
                 if op[3] in remap:
                     nops.append([op[0], op[1], op[2], remap[op[3]]] +
                                 list(op[4:]))
+            elif op[1] == 'cancel_on':
+                if op[3] in remap:
+                    nops.append([op[0], op[1], [remap[op[3]]], remap[op[3]],
+                                 op[4]])
             else:
                 nops.append(op)
         c['ops'] = nops
